@@ -31,8 +31,13 @@ META = {
     'bounds': 'H1: 2 events of one object (3 events per cell do not exhaust within 20 CPU-minutes and are not claimed); per event a version in {stale, echo of patch 1, echo of patch 2}; per processing a returned '
               'version in {None, p1, p2}; symbolic unbounded gaps, durations, consistency timeout T>=0, idle timeout>=1, 4 tie-breaks. '
               'H2: one event; delta symbolic >= 0; pressure at a symbolic instant or never; patch initially empty or carrying a '
-              'remaining transformation; deletion with/without pending delete handler.',
-    'outside': 'the composed watcher+worker+processor+server run (decomposed into H1/H2/H3); API latency inside patch_obj is zero-time',
+              'remaining transformation (adding the finalizer, or -- deleting -- the release carried over from a 422); deletion with/without pending delete handler. '
+              'H1 also: 3 events with all arrivals at one instant (one PATCH, then two queued events). '
+              'H4 (h_composed): the real watcher+worker+process_resource_event+patching on one object over the fake server whose watch '
+              'stream is an ordered reader of the change log; symbolic unbounded consistency timeout, per-event delivery lag, request latency '
+              'before/after the server applies a PATCH, instant of 1-2 foreign spec edits; a cell pins some of these instants to 0 (regime) and '
+              'the idle timeout to 1 s.',
+    'outside': 'h_composed with all instants symbolic at once (one cell = one regime); more than 2 foreign writes; several objects',
     'stubs': ['watching.infinite_watch -> scripted generator', 'processor stub (H1)', 'api.patch -> FakeServer (H2)'],
     'assumptions': ['watch events of one object are delivered in server order (ordered log with arbitrary lag)'],
 }
